@@ -666,7 +666,7 @@ def random_queries(rng, hier, nq=None):
         elif r < 0.70:
             qs.append("m %d %d" % (s, t))
         else:
-            cls = rng.choice("ISSAA")
+            cls = rng.choice(["I", "S", "S", "A", "A", "FS", "FA", "FI", "BI"])
             mode = rng.choice([0, 1, 1, 1, 2, 2])
             an = rng.choice([0, 1])
             if hier.kinds[s] == "n" or (none_idx and rng.random() < 0.3):
@@ -750,7 +750,8 @@ def random_chain_case(rng):
         for _ in range(rng.choice([2, 3, 4])):
             s, t = order[rng.randrange(0, max(1, n // 2))], order[rng.randrange(n // 2, n)]
             queries.append("%s %d %d" % (rng.choice("aaads"), s, t))
-        queries.append("t %s %d %d %d %d" % (rng.choice("SA"), rng.choice([1, 2]), rng.choice([0, 1]), order[0], order[-1]))
+        queries.append("t %s %d %d %d %d" % (rng.choice(["S", "A", "FS", "FA", "BI"]), rng.choice([1, 2]),
+                                              rng.choice([0, 1]), order[0], order[-1]))
         queries = list(dict.fromkeys(queries))
         if too_big(hier, offers, queries):
             continue
@@ -760,6 +761,63 @@ def random_chain_case(rng):
             ft.update(more)
         return make_line(hier, offers, ft, queries)
     raise RuntimeError("could not generate a chain case")
+
+
+def random_forward_case(rng):
+    """Trait-level stream for the PYTHON validator (BaseInstance.validate): Supports / AdaptsTo / Instance declared
+    with a forward-reference string (first assignment; the engine repeats it on a fresh holder = C validator) and
+    BaseInstance(adapt=...), over short chains most of whose adapters are alive but FALSY (__bool__ False,
+    __len__ 0, empty dict subclass), with a few conditional refusals; next to each the same query on a trait
+    declared with the class, and adapt() itself."""
+    for _ in range(50):
+        n = rng.randint(2, 5)
+        ts = []
+        for i in range(n):
+            kind = rng.choice("cccai")
+            bases = []
+            if i and rng.random() < 0.25:
+                bases = [rng.randrange(i)]
+            ts.append("%s%d:%s" % (kind, i, ",".join(map(str, bases))))
+        try:
+            hier = Hier("T=" + ";".join(ts))
+        except TypeError:
+            continue
+        order = list(range(n))
+        rng.shuffle(order)
+        offers = []
+        nid = 0
+        for a, b in zip(order, order[1:]):
+            offers.append((nid, a, b, hier.key_of(a), rng.choice("nnnnp")))
+            nid += 1
+        for _ in range(rng.randint(0, 3)):
+            a, b = rng.randrange(n), rng.randrange(n)
+            offers.append((nid, a, b, hier.key_of(a), "n"))
+            nid += 1
+        rng.shuffle(offers)
+        offers = falsify(rng, offers, share=rng.choice([0.5, 0.8, 1.0]))
+        info = info_of(hier, offers)
+        queries = []
+        for _ in range(rng.choice([2, 3, 4])):
+            lo = rng.randrange(0, n - 1)
+            s_, t_ = order[lo], order[rng.randrange(lo + 1, n)]
+            if rng.random() < 0.15:
+                s_, t_ = t_, s_
+            if hier.kinds[s_] == "i":
+                continue                                   # an Interface has no instances
+            base = rng.choice("SAI")
+            mode = rng.choice([1, 1, 2])
+            an = rng.choice([0, 1])
+            queries.append("t %s %d %d %d %d" % (rng.choice(["F" + base, "F" + base, "BI"]), mode, an, s_, t_))
+            if rng.random() < 0.5:
+                queries.append("t %s %d %d %d %d" % (base, mode, an, s_, t_))
+            if rng.random() < 0.3:
+                queries.append("d %d %d" % (s_, t_))
+        queries = list(dict.fromkeys(queries))
+        if not queries or too_big(hier, offers, queries):
+            continue
+        ft = random_ftab(rng, hier, offers, info, queries) if rng.random() < 0.4 else {}
+        return make_line(hier, offers, ft, queries)
+    raise RuntimeError("could not generate a forward-reference case")
 
 
 def random_specific_case(rng):
